@@ -102,7 +102,9 @@ func genC05(e *emitter, tier string, seed int64) {
 	toks := []string{"a", "b1", "_", "if", "elif", "else", "for", "in", "break", "continue", "true", "FALSE", "nil", "NULL", "1", "0x1f", "1.5", "1e3", "1e", "0x", "1.2.3", ".5", "08", "inf", "NaN",
 		"\"s\"", "'s'", "\"\\n\"", "\"\\x4\"", "\"\\u12\"", "\"unterminated", "'''m\nl'''", "\"\"\"a\"\"\"", "`q`", "`unterminated", "`é`",
 		"+", "-", "*", "/", "%", "=", "==", "!=", "<", "<=", ">", ">=", "&&", "||", "!", "&", "|", "+=", "-=", "*=", "/=", "%=",
-		"(", ")", "[", "]", "{", "}", ",", ":", ";", ".", "\n", " ", "\t", "# c\n", "#", "é", "😀", "\x00", "\xff", "$", "@", "~", "?", "^"}
+		"(", ")", "[", "]", "{", "}", ",", ":", ";", ".", "\n", " ", "\t", "# c\n", "#", "é", "😀", "\x00", "\xff", "$", "@", "~", "?", "^",
+		// multi-byte blanks and controls outside strings (they are identifier runes for the lexer)
+		"\u00a0", "\u3000", "\u2028", "\u0085", "\u200b", "\ufeff", "a\u00a0b", "=\u00a01"}
 	for i := 0; i < N; i++ {
 		n := rng.Intn(12)
 		var sb strings.Builder
@@ -134,7 +136,7 @@ func genC05(e *emitter, tier string, seed int64) {
 		lexCase(e, src, "mutated-prog")
 	}
 	// 4. named hard cases: unterminated strings/escapes, malformed numbers, deep nesting
-	hard := []string{"-0x", "for a in 1e {}", "x = [1e", "\"abc", "\"abc\\", "\"\\", "\"\\u", "\"\\U0011000", "'''abc", "`abc", "1.2.3", "0x", "1e", "1e+", "08", "0b1", "1_0",
+	hard := []string{"a =\u00a01\n", "x\u3000= 1", "\u2028", "if\u0085x {}", "a = \"\u00a0\" \u00a0", "-0x", "for a in 1e {}", "x = [1e", "\"abc", "\"abc\\", "\"\\", "\"\\u", "\"\\U0011000", "'''abc", "`abc", "1.2.3", "0x", "1e", "1e+", "08", "0b1", "1_0",
 		"a.b.c", "a..b", ".[0]", "a[", "a[1", "a[1:", "a[::", "f(", "f(1,", "f(,)", "{", "{\"a\"", "{\"a\":", "if", "if x", "if x {", "for", "for ;", "for ;;", "for x in", "elif x {}", "else {}",
 		"x = ", "= 1", "x == ", "1 +", "+", "!", "((((((", "))))", "[[[[", "]]]]", "{{{{", "}}}}", "\xff\xfe", "a\x00b", "\"\xff\"", "`\xff`", "'''\xff'''", "#", "# only comment", "\n\n\n", ";;;", "a;;b", "a\n;\nb",
 		strings.Repeat("(", 2000) + "1" + strings.Repeat(")", 2000), strings.Repeat("[", 2000) + strings.Repeat("]", 2000), strings.Repeat("-", 3000) + "1",
